@@ -403,7 +403,9 @@ func Exec(set *jet.Set, c Call, tag string) Outcome {
 	data := c.Data.Data()
 	var xerr error
 	before := varsSnapshot(vm)
+	beginExecution()
 	o.Panic = sim.Guard(func() { xerr = t.Execute(w, vm, data) })
+	endExecution()
 	if xerr != nil {
 		o.Err = xerr.Error()
 	}
@@ -607,8 +609,55 @@ func installPools(env *sim.Env, policy simrt.PoolPolicy) (*simrt.Pools, func()) 
 	p := &simrt.Pools{Tape: env.Tape, Policy: policy}
 	p.Trace = func(format string, a ...any) { env.Event(format, a...) }
 	un := p.Install()
-	return p, un
+	// a deterministic measure of how much work an execution is: the number of hook sites it passes
+	// (every function and global resolution, every struct field access) - see Steps()
+	steps, execStart = 0, 0
+	jet.VerifHooks.Yield = func(string) {
+		steps++
+		if steps-execStart > HardStepsPerExecution {
+			// far beyond anything an engine would use: stop this execution (every further step fails too,
+			// so try statements and isset() cannot keep it going); the run is then dropped as invalid
+			panic(tooExpensive{})
+		}
+	}
+	return p, func() { jet.VerifHooks.Yield = nil; un() }
 }
+
+var steps, execStart int64
+
+// tooExpensive aborts an execution (and then the run) whose cost explodes: generated worlds can nest
+// ranges over long lists below yields below ranges; one such Execute runs for minutes.
+type tooExpensive struct{}
+
+const HardStepsPerExecution = 1500000
+
+// DropIfTooExpensive is deferred by the engines: a run that met such a template is not judged.
+func DropIfTooExpensive(env *sim.Env) {
+	if r := recover(); r != nil {
+		if _, ok := r.(tooExpensive); ok {
+			env.Res.Violations = nil
+			env.Res.Invalid = "a template of the generated world costs more than 1.5 million steps to execute"
+			env.Res.Nontrivial = false
+			return
+		}
+		panic(r)
+	}
+}
+
+func beginExecution() { execStart = steps }
+
+func endExecution() {
+	if steps-execStart > HardStepsPerExecution {
+		panic(tooExpensive{})
+	}
+}
+
+// Steps returns the work counter; engines skip templates whose fault-free execution is so expensive
+// that hundreds of faulted re-executions would run into the watchdog (a "hang" that is only cost).
+func Steps() int64 { return steps }
+
+// MaxStepsPerExecution: templates costlier than this are not used as fault-enumeration subjects.
+const MaxStepsPerExecution = 20000
 
 func poolStats(env *sim.Env, p *simrt.Pools) {
 	env.Stat("pool:runtime_fresh", p.RtFresh)
@@ -667,7 +716,9 @@ func execWatch(s *jetSet, c Call, nestedAt map[int]bool) (Outcome, []io.Writer) 
 	})
 	data := c.Data.Data()
 	var xerr error
+	beginExecution()
 	o.Panic = sim.Guard(func() { xerr = t.Execute(w, vm, data) })
+	endExecution()
 	if xerr != nil {
 		o.Err = xerr.Error()
 	}
